@@ -22,6 +22,7 @@ import numpy as np
 
 from harness.core import PropertyCheck
 from harness.util import Snapshot, close, errname, fr, frs, parse_rats
+from harness.props import c18_machine as M
 
 C_FWHM = math.sqrt(8.0 * math.log(2.0))
 
@@ -83,7 +84,8 @@ def _rand_case(rng, tier, sizes):
     return {"kind": "filter", "shape": shape, "aff": aff, "afftag": kind, "fwhm": fwhm, "cov": cov,
             "norm": norm, "scale": scale, "loc": loc, "p": p, "seed": rng.randrange(1 << 30),
             "shift": [rng.choice([0, 1, 1, 2]) for _ in range(3)],
-            "ab": [rng.choice([1.0, 2.0, -0.5, 3.0]), rng.choice([1.0, -1.0, 0.25])]}
+            "ab": [rng.choice([1.0, 2.0, -0.5, 3.0]), rng.choice([1.0, -1.0, 0.25])],
+            "xvar": rng.choice(M.IMG_VARIANTS)}
 
 
 def _geom_part(rng, sizes):
@@ -156,7 +158,7 @@ def _resel_case(rng):
     return {"kind": "resel", "lin": lin, "afftag": kind, "D": rng.choice([3, 3, 3, 2, 1]),
             "f": [rng.choice([0.0, 1.0, 2.5, 6.0, -1.0, 0.125, rng.randrange(1, 640) / 32.0]) for _ in range(4)],
             "seed": rng.randrange(1 << 30), "n": rng.choice([1, 2, 5, 12]),
-            "mask": rng.choice(["none", "bool", "float", "zero"])}
+            "mask": rng.choice(["none", "bool", "float", "zero", "int8", "uint8", "bool-F"])}
 
 
 def _cov_case(rng):
@@ -211,41 +213,78 @@ def direct_smooth(x, K, c, normval, scale, loc):
 class C18(PropertyCheck):
     id = "C18"
     title = "Gaussian smoothing is linear, centred, normalised and scaled in world units"
-    lean_modules = ["NipyVerif.Props.C18", "NipyVerif.Props.C18B"]
+    lean_modules = ["NipyVerif.Props.C18", "NipyVerif.Props.C18B", "NipyVerif.Props.C18C", "NipyVerif.Props.C18D",
+                    "NipyVerif.Props.C18R"]
     driver = "Drivers/C18.lean"
     rule = ("cases are (grid shape, affine, FWHM, normalisation, scale, location, impulse position, image seed) "
-            "tuples from a seeded PRNG plus the exhaustive small list of grid parities; operation histories on one "
-            "filter object (1-3 spatial images with NaN/inf, 0-2 pre-transformed images, 3-10 operations: smooth with "
-            "clean/is_fft, re-assigned normalisation/scale/location/fwhm, the first request repeated at the end); every "
-            "impulse position of small grids (all shapes ≤ 5×5×5 in the thorough tier); `_crop` arrays; `cov` filters; "
-            "Resels conversions; refusal tables.  Non-trivial = the cropped kernel is larger than one voxel (smoothing is "
-            "not the identity) resp. a non-empty array / non-zero width; distinct by full JSON of the case")
+            "tuples from a seeded PRNG plus the exhaustive small list of grid parities, the images handed over as float64 / "
+            "float32 / int8 / int16 / int32 / int64 / uint8, C / Fortran / strided / negative-stride / read-only; operation "
+            "histories on one filter object (hist: 1-3 spatial images with NaN/inf, 0-2 pre-transformed images, 3-10 operations; "
+            "hist2: the object with editable attributes — smooth(clean, is_fft), __call__ / _normsq on point arrays of every "
+            "dtype / layout / number of coordinates, _presmooth, assignments of normalization / scale / location / fwhm (scalar, "
+            "3-, 4-, too short sequences, negative) / cov (None, four positive definite, one indefinite), re-runs of "
+            "_setup_kernel(), pre-transformed images made by _presmooth at first use, image magnitudes 2^-40 … 2^100, the "
+            "first request repeated at the end); every impulse position of small grids (all shapes ≤ 5×5×5 in the thorough "
+            "tier); `_crop` arrays; `cov` filters; Resels conversions with bool / float / int8 / uint8 / strided masks; refusal "
+            "tables.  Non-trivial = the cropped kernel is larger than one voxel (smoothing is not the identity) resp. a "
+            "non-empty array / non-zero width; distinct by full JSON of the case")
     assumptions = [
-        "exp is external: the Gaussian values the implementation computed (LinearFilter._kernel) are passed "
-        "to the smoothing model as exact dyadic rationals; the kernel model returns exact exponents which the "
-        "harness compares with -log of those values (rtol 1e-9)",
-        "numpy.fft: irfftn(rfftn(x)*rfftn(k)) is the circular convolution on the padded grid (modelled as the "
-        "exact circular sum; FFT round-off absorbed by the 1e-9 tolerance of the correspondence); a pre-transformed "
-        "image (is_fft=True) is represented in the model by the buffer it is the transform of",
+        "exp is external: the Gaussian values the implementation computed (LinearFilter._kernel, at every _setup_kernel) are "
+        "passed to the smoothing model as exact dyadic rationals; the kernel / __call__ model returns exact exponents which "
+        "the harness compares with -log of those values (rtol 1e-9). The normalisation theorems take E q = exp(-q) as a "
+        "parameter with E 0 = 1 and 0 < E <= 1 on [0, inf) (true of the real exponential: exp_neg_meets_kernel_hypotheses; "
+        "of its binary64 rounding by monotonicity of a correctly rounded exp — not proved)",
+        "numpy.fft: irfftn(rfftn(x)*rfftn(k)) is the circular convolution on the padded grid (modelled as the exact circular "
+        "sum; FFT round-off absorbed by the 1e-9 tolerance of the correspondence, relative to |scale|*max|x|*l1sum/norm + "
+        "|location|); a pre-transformed image (is_fft=True) is represented in the model by the buffer it is the transform of "
+        "and the shape of that buffer",
         "NaN/inf reaching the FFT give no finite output (model answer `nonfinite`); values at the binary64 limit after "
         "nan_to_num(±inf) are `unspecified` in the model (float overflow) and not compared",
-        "sqrt(8 log 2) and sqrt(4 log 2) are parameters c, c4 of the conversion theorems; the oracle checks c*c = 8 log 2 "
-        "and the half-maximum identity numerically; D-th roots (np.power(x, 1/D)) and the l2 norm's square root are "
-        "passed in, the model returns root**D resp. the sum of squares for comparison",
-        "inv(cholesky(cov)) is a parameter (whitening matrix) of the kernel model; the `cov` branch is modelled as built "
-        "(refusal unless the second grid axis has length 3, then the array NumPy's dot produces) and carries no oracle: "
+        "sqrt(8 log 2) and sqrt(4 log 2) are parameters c, c4 of the rational conversion theorems (the float quotient "
+        "fwhm / c is passed in as sigma with every assignment of fwhm); that c^2 = 8 log 2 and that the Gaussian of sigma = "
+        "fwhm / c is at half maximum at distance fwhm / 2 is proved over the reals (Props/C18R) and checked numerically by the "
+        "oracle; D-th roots (np.power(x, 1/D)) and the l2 norm's square root are passed in, the model returns root**D resp. "
+        "the sum of squares for comparison",
+        "inv(cholesky(cov)) is a parameter (whitening matrix W, with a positive-definite flag) of the kernel model; theorem "
+        "whitening_is_inverse_cov takes the contract W L = L W = 1, L L^T = cov as hypotheses. With `cov`, __call__ / "
+        "_normsq on 2-D point arrays whiten as intended (modelled, compared); _setup_kernel's 4-D array goes through np.dot "
+        "as built (refusal unless the second grid axis has length 3, then the array NumPy's dot produces: `covkernel` lines; in "
+        "a history the object is then `wild` = not modelled until the next successful _setup_kernel) and carries no oracle: "
         "the property's quantifier does not include `cov`",
-        "comparisons normsq <= 15 are made exactly in the model and in binary64 in the implementation; cases "
-        "with an exponent within 1e-9 of 15 are tagged 'boundary' and skipped",
-        "ties of the property to Image/coordmap plumbing (shape, coordmap equality) are oracle-only; refusals are "
-        "tables in the model (argGuard, fwhmGuard, reselImageGuard, iterGuard) compared with the raised exception",
+        "comparisons normsq <= 15 are made exactly in the model and in binary64 in the implementation; cases with an "
+        "exponent within 1e-9 of 15 under any width the history builds a kernel with are tagged 'boundary' and skipped; that "
+        "exp(-15) is above _crop's tolerance 1e-10 (so the stored kernel's box is the box of {exponent <= 15}) is proved "
+        "(exp_neg_cutoff_gt_tol)",
+        "__call__ / _normsq on integer point arrays are modelled as built and carry no oracle (outside the statement, which "
+        "is about smoothing images): 2-D integer arrays are refused (in-place true division), a 1-D integer point is "
+        "silently truncated after the division (model answer `unspecified`)",
+        "ties of the property to Image/coordmap plumbing (shape, coordmap equality) are oracle-only; refusals are tables in "
+        "the model (argGuard, fwhmGuard, ptsGuard, covGuard, reselImageGuard, iterGuard) compared with the raised exception; "
+        "4-D input is refused as built (NotImplementedError), so there is no time axis to leave untouched",
         "Resels.fwhm2resel/resel2fwhm are modelled as built; they are mutually inverse only for wedge = 1 "
         "(theorem resel_inverse_iff_unit_wedge) — outside the statement, whose inverse clause names width/standard "
         "deviation (fwhm2sigma/sigma2fwhm), so no oracle is attached to it",
+        "formula-like source (padding, centre voxel, centre index, norms table, cut-off / halving / clamp of __call__, the "
+        "scale / location statements of smooth, the output window, _crop's tolerance / corner / box, the four width and resel "
+        "formulas, _calc_detlam, constructor defaults) is re-read from /repo's text on every run (Gen/C18Source.lean) and "
+        "proved equal to the model for all arguments (Props/C18D); statement shapes the translator does not recognise are a "
+        "broken tie",
     ]
-    level_note = ("the mass clause has its exact margin (`smooth_mass_at_margin`) but no sharpness theorem (the constant "
-                  "clause has: `constant_margin_sharp`); Gaussian values (`exp`), FFT and roots are parameters; "
-                  "ReselImage/Resels.__iter__ are unusable as built and appear as refusal tables only")
+    level_note = ("proved for all inputs of the exact model: smooth = direct convolution (the FFT circle as written in the "
+                  "source is 3 + off + (n+k) mod 2 points longer than the exact least length needLen = n+k-1-off, which is "
+                  "sharp); linearity, scale/location, impulse response and centring, shift equivariance; constants and total "
+                  "intensity for every normalisation / scale / location with margins that are sharp for both clauses; no "
+                  "norm can vanish; the kernel as the world-unit Gaussian for every invertible affine and, with cov, the "
+                  "quadratic form with matrix cov^-1; the object: no operation touches caller data, smooth reads only what "
+                  "_setup_kernel built + three settings, fwhm/cov edits are inert for smooth until _setup_kernel and live for "
+                  "__call__, re-running _setup_kernel = constructing afresh. Parameters, not proved: exp values (binary64), "
+                  "FFT round-off, roots, inv(cholesky). As built and outside the statement: cov in _setup_kernel, integer "
+                  "point arrays in __call__, 4-D input (refused), ReselImage / Resels.__iter__ (refusal tables)")
+
+    def translators(self):
+        from harness.core import REPO, TieBroken
+        from harness.props import c18_translate
+        return c18_translate.translate(REPO, TieBroken)
 
     # ------------------------------------------------------------------
     def generate(self, rng, tier):
@@ -276,6 +315,11 @@ class C18(PropertyCheck):
         # --- extension round -------------------------------------------------------------
         for _ in range(110 if quick else 1500):
             cases.append(_hist_case(rng, tier))
+        # --- wave 3: the filter as an object (attribute edits, re-runs of _setup_kernel, __call__/_normsq/_presmooth)
+        for _ in range(120 if quick else 2000):
+            cases.append(M.gen_hist2(rng, _geom_part, "object"))
+        for _ in range(50 if quick else 800):
+            cases.append(M.gen_hist2(rng, _geom_part, "points"))
         for _ in range(30 if quick else 400):
             cases.append(_crop_case(rng))
         for _ in range(20 if quick else 250):
@@ -415,6 +459,12 @@ class C18(PropertyCheck):
         # the norms table
         res["lines"].append(f"norms {kimpl.shape[0]} {kimpl.shape[1]} {kimpl.shape[2]} {frs(kimpl.ravel())}")
         res["impl"].append(("rats", [float(lf.norms["l1sum"]), float(lf.norms["l1"]), float(lf.norms["l2"]) ** 2], 1e-12))
+        # the FFT circle: padded length as built, least length without wrap into the window, the slack
+        for ax in range(3):
+            n_, k_, o_ = shape[ax], int(kimpl.shape[ax]), kc[ax]
+            if 0 <= o_ < k_:
+                res["lines"].append(f"padinfo {n_} {k_} {o_}")
+                res["impl"].append(("text", f"{int(lf.shape[ax])} {n_ + k_ - 1 - o_} {int(lf.shape[ax]) - (n_ + k_ - 1 - o_)}"))
         if [kimpl.shape[i] - 1 - kc[i] for i in range(3)] != [int(v) for v in dhi] or kc != [int(-v) for v in dlo]:
             res["oracle"] = (f"kernel box of LinearFilter(shape={shape}, fwhm={fw}) is not the support of the world-unit "
                              f"Gaussian about the centre voxel: extents above/below centre {[kimpl.shape[i] - 1 - kc[i] for i in range(3)]}/{kc}, "
@@ -432,9 +482,15 @@ class C18(PropertyCheck):
 
         fails = []
 
+        xvar = c.get("xvar", "float64")
+        if xvar != "float64":
+            tags.append("img-" + xvar)
+
         def smooth(x, what):
-            img = Image(x.copy(), cm)
-            snap = Snapshot(data=img.get_fdata(), k=lf._kernel)
+            # the same numbers in the case's dtype / memory layout (when they are representable)
+            arr = M.as_variant(x.copy(), xvar)
+            img = Image(arr, cm)
+            snap = Snapshot(data=arr, k=lf._kernel)
             try:
                 out = lf.smooth(img)
             except Exception as e:
@@ -734,6 +790,10 @@ class C18(PropertyCheck):
             res["oracle"] = fails[0]
         return res
 
+    def _hist2(self, c):
+        _freeze_once()
+        return M.run_hist2(c)
+
     def _crop(self, c):
         from nipy.algorithms.kernel_smooth import _crop
         shape = tuple(c["shape"])
@@ -873,7 +933,11 @@ class C18(PropertyCheck):
         rs = np.random.RandomState(c["seed"])
         res_arr = rs.randint(0, 64, size=c["n"]) / 16.0
         mask = {"none": None, "bool": rs.rand(c["n"]) < 0.6, "zero": np.zeros(c["n"], bool),
-                "float": rs.choice([0.0, 0.7, 1.0, 2.5, -1.5], size=c["n"])}[c["mask"]]
+                "float": rs.choice([0.0, 0.7, 1.0, 2.5, -1.5], size=c["n"]),
+                # selectors as small integers: 0/1, signed scores, unsigned with a large entry (weights, as built)
+                "int8": rs.choice([0, 1, 1, -1, 2], size=c["n"]).astype(np.int8),
+                "uint8": rs.choice([0, 1, 1, 255], size=c["n"]).astype(np.uint8),
+                "bool-F": (rs.rand(2 * c["n"]) < 0.6)[::2]}[c["mask"]]
         R = Resels(cm, D=D, resels=res_arr, mask=mask)
         c4 = float(np.sqrt(4 * np.log(2.0)))
         w = float(R.wedge)
@@ -966,6 +1030,8 @@ class C18(PropertyCheck):
         kind = impl_obs[0]
         if kind == "text":
             return None if impl_obs[1] == model_out else f"impl={impl_obs[1]} model={model_out}"
+        if kind == "hist2":
+            return M.compare_hist2(impl_obs, model_out)
         if kind not in ("hist", "covk") and model_out.startswith(("error", "bad-op", "empty", "kernel-shape-mismatch")):
             return f"impl returned values, model says {model_out[:80]}"
         if kind in ("rats", "img"):
@@ -1089,6 +1155,29 @@ class C18(PropertyCheck):
 
     def shrink(self, case):
         kind = case.get("kind")
+        if kind == "hist2":
+            ops, imgs = case["ops"], case["imgs"]
+            for k in range(len(ops)):
+                if len(ops) > 1:
+                    c = dict(case); c["ops"] = ops[:k] + ops[k + 1:]; yield c
+            for i, d in enumerate(imgs):
+                if d["t"] == "s" and (d.get("nan") or d.get("inf") or d.get("mag") or d.get("var") != "float64"):
+                    c = dict(case)
+                    c["imgs"] = [({**e, "nan": 0, "inf": 0, "mag": 0, "var": "float64"} if t == i else e) for t, e in enumerate(imgs)]
+                    yield c
+            for k, o in enumerate(ops):
+                if o[0] == "call" and (o[2]["n"] > 1 or o[2]["layout"] != "rows"):
+                    c = dict(case)
+                    c["ops"] = [([o2[0], o2[1], {**o2[2], "n": 1, "layout": "rows"}] if t == k else o2) for t, o2 in enumerate(ops)]
+                    yield c
+            sh = case["shape"]
+            for i in range(3):
+                if sh[i] > 1:
+                    c = dict(case); s_ = list(sh); s_[i] = sh[i] - 1; c["shape"] = s_; yield c
+            ident = [[1.0, 0, 0, 0], [0, 1.0, 0, 0], [0, 0, 1.0, 0], [0, 0, 0, 1.0]]
+            if case["aff"] != ident:
+                c = dict(case); c["aff"] = ident; c["afftag"] = "iso"; yield c
+            return
         if kind not in ("filter", "hist", "exh"):
             return
         if kind == "hist":
